@@ -588,15 +588,17 @@ func (c *Context) Sqrt(d, x *Decimal) (Condition, error) {
 	// approx is within a tiny fraction of a unit in the last place of sqrt(f),
 	// but rounding it is not the same as rounding sqrt(f): when sqrt(f) lies
 	// just below a rounding midpoint (or a representable value) approx can be
-	// that midpoint (or value) itself. Decide the last digit exactly instead,
-	// as the paper does: truncate approx to c.Precision digits and compare f
-	// with the square of the midpoint above the truncated value. This is done
-	// unless the result is subnormal, which is rounded to fewer digits below.
+	// that midpoint (or value) itself. Locate the root exactly instead, as the
+	// paper does, with unlimited-precision arithmetic on candidates of
+	// c.Precision digits: find v with v <= sqrt(f) < v + ulp, then the position
+	// of the root relative to the midpoint of that interval. What is rounded
+	// below is v itself when it is the root, and otherwise a stand-in with the
+	// same position (v plus a quarter, a half or three quarters of a unit), so
+	// that a result that is subnormal for the context, and keeps fewer digits,
+	// is still rounded once.
 	inexact := false
-	exactRounding := c.Precision > 0 &&
-		int64(approx.Exponent)+approx.NumDigits()-1+e/2 >= int64(c.MinExponent)
-	if exactRounding {
-		var v, mid, sq Decimal
+	if c.Precision > 0 {
+		var v, next, mid, sq, ulp Decimal
 		trunc := BaseContext.WithPrecision(c.Precision)
 		trunc.Rounding = RoundDown
 		trunc.round(&v, &approx)
@@ -605,21 +607,49 @@ func (c *Context) Sqrt(d, x *Decimal) (Condition, error) {
 			v.Coeff.Mul(&v.Coeff, tableExp10(pad, &tmpE))
 			v.Exponent -= int32(pad)
 		}
-		// mid = v + half a unit in the last place of v.
-		mid.Set(&v)
-		mid.Coeff.Mul(&mid.Coeff, bigTen)
-		mid.Coeff.Add(&mid.Coeff, bigFive)
-		mid.Exponent--
 		exact := MakeErrDecimal(&BaseContext)
-		exact.Mul(&sq, &mid, &mid)
-		if cmp := f.Cmp(&sq); cmp > 0 || (cmp == 0 && v.Coeff.Bit(0) == 1) {
-			v.Coeff.Add(&v.Coeff, bigOne)
+		ulp.SetFinite(1, v.Exponent)
+		// f is in [0.01, 1), so its root is in [0.1, 1) and v and v + ulp have
+		// the same exponent.
+		for i := 0; i < 3; i++ {
+			exact.Mul(&sq, &v, &v)
+			if sq.Cmp(&f) <= 0 {
+				break
+			}
+			exact.Sub(&v, &v, &ulp)
+		}
+		for i := 0; i < 3; i++ {
+			exact.Add(&next, &v, &ulp)
+			exact.Mul(&sq, &next, &next)
+			if sq.Cmp(&f) > 0 {
+				break
+			}
+			v.Set(&next)
 		}
 		exact.Mul(&sq, &v, &v)
+		if sq.Cmp(&f) != 0 {
+			inexact = true
+			// mid = v + half a unit in the last place of v.
+			mid.Set(&v)
+			mid.Coeff.Mul(&mid.Coeff, bigTen)
+			mid.Coeff.Add(&mid.Coeff, bigFive)
+			mid.Exponent--
+			exact.Mul(&sq, &mid, &mid)
+			quarter := uint64(50)
+			switch m := sq.Cmp(&f); {
+			case m > 0:
+				quarter = 25
+			case m < 0:
+				quarter = 75
+			}
+			var q BigInt
+			v.Coeff.Mul(&v.Coeff, bigHundred)
+			v.Coeff.Add(&v.Coeff, q.SetUint64(quarter))
+			v.Exponent -= 2
+		}
 		if err := exact.Err(); err != nil {
 			return 0, err
 		}
-		inexact = sq.Cmp(&f) != 0
 		approx.Set(&v)
 	}
 
